@@ -28,6 +28,7 @@ var (
 	Enabled atomic.Bool
 	mu      sync.Mutex
 	out     []ent // disjoint, sorted by lo
+	inPool  []ent // ranges the framework returned and nobody obtained again through this wrapper; disjoint, sorted by lo
 	seq     int64
 	alarms  []string
 	// Gets / Puts count calls; Tracked is the number of ranges currently tracked.
@@ -77,6 +78,7 @@ func Get(n int) []byte {
 	lo, hi := rng(b)
 	st := site()
 	mu.Lock()
+	dropInPool(lo, hi)
 	i := sort.Search(len(out), func(i int) bool { return out[i].hi > lo })
 	if i < len(out) && out[i].lo < hi {
 		o := out[i]
@@ -138,9 +140,56 @@ func Put(b []byte) {
 		if changed {
 			out = kept
 		}
+		// returned twice: the range is already in the pool (nobody obtained it again in between), so two later Gets
+		// would be handed the same memory
+		st := site()
+		if e, ok := dropInPool(lo, hi); ok && len(alarms) < 50 {
+			alarms = append(alarms, fmt.Sprintf("double-put: Put at %s returns [%#x,%#x) which was already returned at %s and has not been handed out since", st, lo, hi, e.site))
+		}
+		seq++
+		i := sort.Search(len(inPool), func(i int) bool { return inPool[i].lo >= lo })
+		inPool = append(inPool, ent{})
+		copy(inPool[i+1:], inPool[i:])
+		inPool[i] = ent{lo, hi, st, b[:cap(b)], seq}
+		if len(inPool) > maxEntries/4 {
+			// forget the older half (by sequence number), keeping the order by address
+			cut := seq - int64(len(inPool)/2)
+			k := 0
+			for _, e := range inPool {
+				if e.seq > cut {
+					inPool[k] = e
+					k++
+				}
+			}
+			for j := k; j < len(inPool); j++ {
+				inPool[j] = ent{}
+			}
+			inPool = inPool[:k]
+		}
 		mu.Unlock()
 	}
 	bs.Put(b)
+}
+
+// dropInPool forgets returned ranges that overlap [lo,hi) (that memory is handed out again, or returned again) and
+// reports one of them. inPool is sorted by lo and disjoint. Caller holds mu.
+func dropInPool(lo, hi uintptr) (first ent, found bool) {
+	i := sort.Search(len(inPool), func(i int) bool { return inPool[i].hi > lo })
+	j := i
+	for j < len(inPool) && inPool[j].lo < hi {
+		if !found {
+			first, found = inPool[j], true
+		}
+		j++
+	}
+	if j > i {
+		n := copy(inPool[i:], inPool[j:])
+		for k := i + n; k < len(inPool); k++ {
+			inPool[k] = ent{}
+		}
+		inPool = inPool[:i+n]
+	}
+	return
 }
 
 // Alarms returns and clears the alarms.
@@ -155,7 +204,7 @@ func Alarms() []string {
 // Reset forgets everything.
 func Reset() {
 	mu.Lock()
-	out, alarms, bytesHeld = nil, nil, 0
+	out, inPool, alarms, bytesHeld = nil, nil, nil, 0
 	mu.Unlock()
 }
 
